@@ -427,6 +427,11 @@ func rulePacketsByPointerOnly(p *Prog, c *Check, rule string) {
 	}
 	n, bad := 0, 0
 	for _, fn := range p.AllFuncs() {
+		if fn.Synthetic != "" && fn.Signature.Recv() != nil && packetStruct(fn.Signature.Recv().Type()) != "" {
+			// compiler-made wrapper promoting a value-receiver method of an embedded field to the packet *value*: it
+			// can only run on a packet that source code has already copied — and that copy is what is reported
+			continue
+		}
 		for _, b := range fn.Blocks {
 			for _, ins := range b.Instrs {
 				n++
